@@ -98,3 +98,88 @@ def declared_types_violated(prog, eng, dists):
                 if not ok(st[i]):
                     return (v, str(st[i]))
     return None
+
+
+def prob_of_condition(cond, prog, params):
+    """P(cond) for a condition over variables that are drawn unconditionally from Uniform(a,b) with constant parameters in the
+    loop body (the shape Polar abstracts as a Bernoulli event); exact Fraction, or None when outside this shape."""
+    import itertools
+    from ..lang.ast import cond_vars, fold
+    from ..ref.engine import eval_cond, eval_expr
+    vs = sorted(cond_vars(cond))
+    laws_ = {}
+    for v in vs:
+        found = [st for st in prog.body if st[0] == "assign" and st[1] == v]
+        nested = [st for st in _all_assigns(prog.body) if st[1] == v]
+        if len(found) != 1 or len(nested) != 1 or len(found[0]) > 3 or found[0][2][0] != "draw" or found[0][2][1] != "Uniform":
+            return None
+        try:
+            a, b = [eval_expr(e, dict(params)) for e in found[0][2][2]]
+        except Exception:
+            return None
+        if not (isinstance(a, Fraction) and isinstance(b, Fraction) and a < b):
+            return None
+        laws_[v] = (a, b)
+    # thresholds per variable
+    cuts = {v: set() for v in vs}
+
+    def collect(c):
+        if c[0] == "atom":
+            l, r = fold(c[1]), fold(c[3])
+            if l[0] == "var" and r[0] == "num":
+                cuts[l[1]].add(r[1])
+            elif r[0] == "var" and l[0] == "num":
+                cuts[r[1]].add(l[1])
+            else:
+                raise ValueError("shape")
+        elif c[0] == "not":
+            collect(c[1])
+        elif c[0] in ("and", "or"):
+            collect(c[1]); collect(c[2])
+    try:
+        collect(cond)
+    except ValueError:
+        return None
+    cells = []
+    for v in vs:
+        a, b = laws_[v]
+        pts = [a] + sorted(x for x in cuts[v] if a < x < b) + [b]
+        cells.append([((lo + hi) / 2, (hi - lo) / (b - a)) for lo, hi in zip(pts, pts[1:])])
+    tot = Fraction(0)
+    for combo in itertools.product(*cells):
+        env = {v: mid for v, (mid, _) in zip(vs, combo)}
+        if eval_cond(cond, env):
+            pr = Fraction(1)
+            for _, w in combo:
+                pr *= w
+            tot += pr
+    return tot
+
+
+def _all_assigns(stmts):
+    from ..lang.ast import walk_stmts
+    out = []
+    for st in walk_stmts(stmts):
+        if st[0] == "assign":
+            out.append(st)
+        elif st[0] == "simult":
+            for v, r in zip(st[1], st[2]):
+                out.append(("assign", v, r))
+    return out
+
+
+def abstraction_values(program, prog, params):
+    """values for the _prob symbols of abstracted conditions (name -> Fraction); None if some condition is outside the oracle"""
+    from ..ref import ir
+    from ..ref.engine import Unsupported
+    out = {}
+    for sym, cond in getattr(program, "abstracted_const_store", {}).items():
+        try:
+            c = ir.conv_cond(cond)
+        except Unsupported:
+            return None
+        p = prob_of_condition(c, prog, params)
+        if p is None:
+            return None
+        out[str(sym)] = p
+    return out
